@@ -325,6 +325,7 @@ func genHistory(r *rand.Rand, p Profile) *History {
 	h.Opts.Defer = g.coin(p.PDefer)
 	h.Opts.Recover = g.coin(p.PRecover)
 	h.Opts.RandSeed = r.Int63n(1 << 30)
+	h.Opts.OptOrder = r.Int63n(1 << 30)
 	// scope tree
 	g.nScopes = 1
 	if p.MaxScopes > 1 && g.coin(0.75) {
@@ -424,8 +425,14 @@ func genHistory(r *rand.Rand, p Profile) *History {
 			}
 		}
 		if len(op.As) > 0 && op.GroupOpt != "" && g.coin(0.25) {
-			// the same interface listed twice for a grouped result: still one member
+			// the same interface listed twice for a grouped result, anywhere in the list: still one member
 			op.As = append(op.As, op.As[g.r.Intn(len(op.As))])
+			if g.coin(0.5) {
+				if i3 := tIfaceBase + g.r.Intn(4); implements(f.Results[0].K.T, i3) && len(f.Results) == 1 {
+					op.As = append(op.As, i3)
+				}
+			}
+			g.r.Shuffle(len(op.As), func(i, j int) { op.As[i], op.As[j] = op.As[j], op.As[i] })
 		}
 		for _, rs := range f.Results {
 			for k := range prodKeys(&Fn{Results: []Res{rs}}, op.As) {
@@ -474,6 +481,15 @@ func genHistory(r *rand.Rand, p Profile) *History {
 			f.Results = []Res{{K: gk, Whole: true, N: g.r.Intn(4), Slice: g.randSlice()}}
 			if g.coin(0.75) {
 				f.Params = append(f.Params, Param{K: gk, Soft: g.coin(g.p.PSoft * 0.7), Slice: g.randSlice()})
+			}
+			if g.coin(0.3) {
+				// a multi-key decorator: the group and a single value (it can be reached through either key)
+				if k, ok := g.pickKey(s, -1, false); ok {
+					f.Results = append(f.Results, Res{K: k})
+					if g.coin(0.6) {
+						f.Params = append(f.Params, Param{K: k})
+					}
+				}
 			}
 		} else {
 			nk := 1
